@@ -136,6 +136,19 @@ def directed() -> list[dict[str, Any]]:
             outs["second"] = 11
         out.append({"kind": "prog", "spec": {"inputs": inputs, "nodes": nodes, "outputs": outs,
                                              "vseed": 7800 + j, "profile": "directed"}})
+    # the same shape of program over a different kernel that carries the same NAME: every
+    # second child generates its cases in reverse order, so the two meet in both orders
+    inputs = [{"id": 0, "kind": "ph", "shape": [3], "dtype": "float64", "pool": "dyadic",
+               "name": "x0"},
+              {"id": 1, "kind": "ph", "shape": [4], "dtype": "float64", "pool": "dyadic",
+               "name": "x1"}]
+    nodes = [{"id": 2, "op": "call_loopy", "args": [0, 1], "params": {"kernel": "outer_twin"}},
+             {"id": 3, "op": "getitem_named", "args": [2], "params": {"name": "out"}},
+             {"id": 4, "op": "getitem_named", "args": [2], "params": {"name": "out2"}},
+             {"id": 5, "op": "sum", "args": [3], "params": {"axis": [1]}},
+             {"id": 6, "op": "add", "args": [5, 4], "params": {}}]
+    out.append({"kind": "prog", "spec": {"inputs": inputs, "nodes": nodes, "outputs": {"t": 6},
+                                         "vseed": 7810, "profile": "directed"}})
     return out
 
 
@@ -254,7 +267,14 @@ def _child(inp: str, outp: str, history: int) -> None:
     with open(inp) as fh:
         cases = json.load(fh)
     res = []
-    for case in cases:
+    # the HISTORY of a process is part of "the process": odd children work through the
+    # cases in reverse order (results are matched by case, not by position)
+    order = list(range(len(cases)))
+    if history % 2:
+        order.reverse()
+    by_pos: dict[int, Any] = {}
+    for pos in order:
+        case = cases[pos]
         try:
             a1 = artefacts(case)
             a2 = artefacts(case)
@@ -263,7 +283,8 @@ def _child(inp: str, outp: str, history: int) -> None:
         rec = {"first": {k: hashlib.sha1(v.encode()).hexdigest() for k, v in a1.items()},
                "second": {k: hashlib.sha1(v.encode()).hexdigest() for k, v in a2.items()},
                "text": a1}
-        res.append(rec)
+        by_pos[pos] = rec
+    res = [by_pos[i] for i in range(len(cases))]
     del keep
     with open(outp, "w") as fh:
         json.dump(res, fh)
